@@ -12,9 +12,14 @@ out_pos - gap - length).  Two real code fragments are verified against it, for a
     size bytes, copies `length` bytes from out_pos - gap - length, never touches memory out of bounds and
     never overlaps, given that the reference lies inside what has been decoded so far.
 Hence decode(encode(item)) == item for every item (the two contracts compose through dec_spec).
-NOT proved (unverified surround, DESIGN.md): find_longest_match returns a real match, the flag-byte
-grouping of both outer loops, termination padding.  The precondition on (offset, length) below is the
-ASSUMED postcondition of find_longest_match.
+WHOLE decoder (unit StringTools.lzss_decompress): both loops of __pyx_lzss_decompress by invariants over a ghost token
+stream (token k starts at source position P(k) and output position O(k); one flags byte precedes every 8 tokens): for every
+well-formed stream WF it consumes EXACTLY the compressed length, and never reads src / writes dst outside their extents.  The
+back-reference branch enters this proof through its own contract (statement summary = the contract the fragment unit proves).
+ASSUMED there: WF, i.e. the postcondition of lzss_compress as a whole (its outer loop / flag grouping is not under contract).
+NOT proved (DESIGN.md): find_longest_match returns a real match, the flag-byte grouping of the encoder's outer loop and its
+termination padding, termination of the decoder, the decoded CONTENT at function level (item level only).  The precondition on
+(offset, length) below is the ASSUMED postcondition of find_longest_match.
 """
 import z3
 
@@ -22,6 +27,7 @@ from dv import spec as S
 from dv.spec import And, Or, Not, Implies, If
 from dv.pyunit import PyUnit, load_source_module
 from dv.cfrag import CFragmentUnit
+from dv.cunit import CUnit
 from dv import cextract
 
 SERVES = ("C12", "C36")
@@ -193,6 +199,157 @@ def _c_post(e):
                                       z3.Select(e.mem["dst"], k) == z3.Select(e.mem0["dst"], k))))
 
 
+# ------------------------------------------------------------------------------------------ C decoder, WHOLE FUNCTION
+# Stream model (ghost): token k (0 <= k < N) starts at source position P(k) and at output position O(k); TOK is the inverse
+# of P on token starts; every 8 tokens share one flags byte that precedes the group.  WF is the compressor's postcondition
+# (ASSUMED here: the outer loop of lzss_compress is not under contract): token sizes / output lengths follow dec_spec, every
+# back reference lies inside what has been decoded, the stream ends exactly when dst_len bytes have been produced.
+
+P = z3.Function("lzss_token_pos", z3.IntSort(), z3.IntSort())
+O = z3.Function("lzss_token_out", z3.IntSort(), z3.IntSort())
+TOK = z3.Function("lzss_token_at", z3.IntSort(), z3.IntSort())
+NTOK = z3.Int("lzss_tokens")
+SRC_LEN = z3.Int("src_len")
+
+
+def _bit(x, j):
+    r = z3.IntVal(0)
+    for b in range(7, -1, -1):
+        r = If(j == b, (x / (2 ** b)) % 2, r)
+    return r
+
+
+def _shr(x, j):
+    """x >> j for 0 <= j <= 7, as a chain of divisions by constants (a division by a symbolic power would be non-linear)"""
+    r = x
+    for b in range(7, 0, -1):
+        r = If(j == b, x / (2 ** b), r)
+    return r
+
+
+def _flagpos(k):
+    return P(8 * (k / 8)) - 1          # (z3's integer division: floor for a positive divisor)
+
+
+FL = z3.Function("lzss_flags_at_token", z3.IntSort(), z3.IntSort())     # the value of the decoder's `flags` when token k is decoded
+
+
+def _tok(src, k):
+    """(is literal, source size, output length, gap) of token k.  The kind of a token is bit (k mod 8) of its group's flags byte f;
+    it is stated through FL(k) = (f + 0xFF00) >> (k mod 8), the shifted flags word with its sentinel, by recursion over the group
+    (WF below), so that no VC contains a shift by a symbolic amount; the lemma unit ...flags proves the closed form agrees."""
+    lit = FL(k) % 2 == 1
+    g, l, sz = dec_spec(z3.Select(src, P(k)), z3.Select(src, P(k) + 1), z3.Select(src, P(k) + 2))
+    return lit, If(lit, 1, sz), If(lit, 1, l), g
+
+
+def wf(src, src_len, dst_len):
+    k = z3.Int("k!wf")
+    lit, size, outlen, gap = _tok(src, k)
+    return And(NTOK >= 1, P(0) == 1, O(0) == 0, O(NTOK) == dst_len,
+               P(NTOK - 1) + _tok(src, NTOK - 1)[1] == src_len,
+               z3.ForAll([k], Implies(And(k >= 0, k < NTOK), And(
+                   TOK(P(k)) == k, P(k) >= 1, P(k) + size <= src_len, O(k) >= 0, O(k) < dst_len,
+                   O(k + 1) == O(k) + outlen, O(k + 1) <= dst_len,
+                   # (consequences of "N is the first index at which dst_len bytes exist", stated per token so that the instance
+                   #  for the token at the cursor suffices)
+                   (O(k + 1) < dst_len) == (k + 1 < NTOK), Implies(k + 1 == NTOK, P(k) + size == src_len),
+                   Implies(Not(lit), gap + outlen <= O(k)),
+                   P(k + 1) == P(k) + size + If((k + 1) % 8 == 0, 1, 0),
+                   # the flags word: loaded with the sentinel at the start of a group, shifted once per token; bit 8 is set while
+                   # tokens of the group remain, and after the eighth shift only the sentinel's low byte is left
+                   Implies(k % 8 == 0, FL(k) == z3.Select(src, P(k) - 1) + 0xFF00),
+                   Implies((k + 1) % 8 != 0, FL(k + 1) == FL(k) / 2),
+                   Implies((k + 1) % 8 == 0, FL(k) / 2 == 0xFF),
+                   FL(k) >= 0, FL(k) <= 0xFFFF, (FL(k) / 256) % 2 == 1)),
+                   patterns=[TOK(P(k))]))      # instantiated for the token at the current position only (P(k+1) in the body would re-trigger itself)
+
+
+class _OuterLoop:
+    """while (1) { flags = src[pos++] | 0xFF00; ... }: at the head a new group of 8 tokens starts"""
+    modifies_objs = ("dst",)
+
+    def holds(self, ex, st):
+        pos, out_pos = ex.local(st, "pos").t, ex.local(st, "out_pos").t
+        k = TOK(pos + 1)
+        # (one clause: the bounds follow from the instance of WF that the token term triggers)
+        return [("a group starts here: the next byte is its flags byte; positions stay inside the buffers",
+                 And(k % 8 == 0, k >= 0, k < NTOK, pos + 1 == P(k), out_pos == O(k),
+                     pos >= 0, pos < SRC_LEN, out_pos >= 0, out_pos < ex.local(st, "dst_len").t))]
+
+
+class _InnerLoop:
+    """while (flags & 0x100) { one token; if (out_pos >= dst_len) return pos; flags >>= 1; }"""
+    modifies_objs = ("dst",)
+
+    def holds(self, ex, st):
+        pos, out_pos, flags = ex.local(st, "pos").t, ex.local(st, "out_pos").t, ex.local(st, "flags").t
+        src = st.mem["src"]
+        k = TOK(pos)
+        k2 = TOK(pos + 1)
+        at_token = And(k >= 0, k < NTOK, pos == P(k), out_pos == O(k), flags == FL(k))
+        group_done = And(k2 % 8 == 0, k2 >= 8, k2 < NTOK, pos + 1 == P(k2), out_pos == O(k2), flags == 0xFF)
+        return [("at token k of its group with the flags shifted k mod 8 times, or the group is finished; positions stay inside the buffers",
+                 And(Or(at_token, group_done), pos >= 0, pos < SRC_LEN, out_pos >= 0, out_pos < ex.local(st, "dst_len").t))]
+
+
+def _backref_summary(ex, st, n):
+    """the back-reference branch, by the contract that the fragment unit StringTools.lzss_decompress.backref proves for it"""
+    from dv.cfe import CV
+
+    class E:
+        pass
+    e = E()
+    e.pos, e.out_pos = ex.local(st, "pos").t, ex.local(st, "out_pos").t
+    e.src_len, e.dst_len = SRC_LEN, ex.local(st, "dst_len").t
+    e.mem0 = dict(st.mem)
+    for label, f in _c_requires():
+        ex.oblige(st, "pre", "backref." + label, f(e), n)
+    e.mem = dict(st.mem)
+    e.mem["dst"] = ex.fresh("dst@backref", st.mem["dst"].sort())
+    e.pos_out, e.out_pos_out, e.exit = ex.fresh("pos@backref"), ex.fresh("out_pos@backref"), "normal"
+    st.path.append(_c_post(e))
+    for rid, nm in st.names.items():
+        if nm in ("pos", "out_pos") and rid in st.vars:
+            st.vars[rid] = CV(st.vars[rid].ty, e.pos_out if nm == "pos" else e.out_pos_out)
+    st.mem["dst"] = e.mem["dst"]
+    ex.__dict__.setdefault("written", set()).add("dst")
+    ex.assumptions.add("the back-reference branch is used by its contract (proved by the fragment unit StringTools.lzss_decompress.backref)")
+    return [("normal", st, None)]
+
+
+def _flag_lemmas():
+    """the recursion WF states for FL is the closed form (f + 0xFF00) >> j, j = k mod 8, and has the properties WF lists for it"""
+    f = z3.Int("f")
+    byte = [f >= 0, f <= 255]
+    X = lambda j: (f + 0xFF00) / (2 ** j)      # noqa: E731
+    for j in range(8):
+        yield "bit8_set_while_tokens_remain[j=%d]" % j, byte, (X(j) / 256) % 2 == 1
+        yield "kind_is_bit_j_of_the_flags_byte[j=%d]" % j, byte, X(j) % 2 == (f / (2 ** j)) % 2
+        yield "range[j=%d]" % j, byte, And(X(j) >= 0, X(j) <= 0xFFFF)
+        if j < 7:
+            yield "one_shift_per_token[j=%d]" % j, byte, X(j + 1) == X(j) / 2
+    yield "sentinel_exhausted_after_8_shifts", byte, X(7) / 2 == 0xFF
+
+
+def _whole_units():
+    u = CUnit("StringTools.lzss_decompress", {"C12": ["post", "inv", "subset"], "C36": ["ub", "inv", "subset"]}, "__pyx_lzss_decompress", _tu,
+              arrays={"src": ("uint8_t", lambda e: SRC_LEN), "dst": ("uint8_t", lambda e: z3.Int("dst_len"))},
+              requires=[("the compressed data is a well-formed token stream for exactly dst_len output bytes (ASSUMED postcondition of lzss_compress)",
+                         lambda e: And(wf(e.mem0["src"], SRC_LEN, e.dst_len), SRC_LEN >= 1, SRC_LEN <= 2 ** 40, e.dst_len >= 1, e.dst_len <= 2 ** 40))],
+              ensures=[("exactly the compressed length is consumed", lambda e: e.result == SRC_LEN)],
+              options={"invariants": {0: _OuterLoop(), 1: _InnerLoop()}, "merge": False, "summaries": [(_find_backref_branch, _backref_summary)],
+                       "probe_unsigned": True},
+              subject={"file": "Cython/Utility/StringTools.c"})
+    u.search = _py_search
+    u.replay = lambda model, ob=None: _py_search(0, getattr(ob, "name", None))
+    u.concrete_search = lambda ob, regions=(): _py_search(0, getattr(ob, "name", None))
+    from dv.lemma import LemmaUnit
+    lem = LemmaUnit("StringTools.lzss_decompress.flags", {"C12": None}, _flag_lemmas,
+                    subject={"file": "Cython/Utility/StringTools.c", "function": "(arithmetic of the flags word used by the lzss_decompress contract)"})
+    return [u, lem]
+
+
 def units(tier):
     us = []
     us.append(PyUnit("LZSS.lzss_compress.emit", {"C12": None}, PFILE, "lzss_compress",
@@ -213,6 +370,7 @@ def units(tier):
                       subject={"file": "Cython/Utility/StringTools.c"})
     u.search = _py_search
     us.append(u)
+    us.extend(_whole_units())
     return us
 
 
